@@ -62,6 +62,10 @@ NumForms(t, mn, mx) == {"-" \o Rep("1", mx), "-" \o Rep("1", mx + 1), "-" \o Rep
                         "-1." \o Rep("5", mx - 1), "." \o Rep("5", mn), "-." \o Rep("5", mx), "1.", "-", ".", "1-1", "1A1", "1.2.3", "+12", "1e2", "--12"}
 DateForms == {"20240230", "20230229", "17991231", "18000101", "2024022A", "2024022", "240229", "241301", "202402291230", "202402292400",
               "20240101-20240229", "20240101-20230229", "2024010120240229", "20240101--2024022"}
+(* ranges whose halves have every length a date notation can have (6, 8, 12) or are empty: only 8-8 is a range *)
+RangeHalf(n) == CASE n = 6 -> <<"240101", "240229">> [] n = 8 -> <<"20240101", "20240229">>
+                  [] n = 12 -> <<"202401011230", "202402291230">> [] OTHER -> <<"", "">>
+RangeForms == {RangeHalf(a)[1] \o "-" \o RangeHalf(b)[2] : a \in {0, 6, 8, 12}, b \in {0, 6, 8, 12}}
 TimeForms == {"2359", "2400", "1260", "123059", "123060", "12305", "1230599", "12305999", "123059999", "12A0"}
 
 Catalogue(x) ==
@@ -71,6 +75,7 @@ Catalogue(x) ==
   \cup (IF NumericType(t) THEN NumForms(t, mn, mx) ELSE {})
   \cup (IF t \in DateTypes \/ Qualified(<<t, mn, mx>>) THEN DateForms ELSE {})
   \cup (IF t = "TM" \/ Qualified(<<t, mn, mx>>) THEN TimeForms ELSE {})
+  \cup (IF Qualified(<<t, mn, mx>>) THEN RangeForms ELSE {})
 
 TypeLists(x) == IF Qualified(<<x.dtype, x.min, x.max>>) THEN {<<>>, <<"D8">>, <<"RD8">>, <<"TM">>, <<"DT">>, <<"D6">>, <<"D8", "RD8">>, <<"D8", "TM">>}
                 ELSE {<<>>}
